@@ -532,6 +532,11 @@ func (vfs *MemFS) MkdirAll(path string, perm fs.FileMode) error {
 		return &fs.PathError{Op: op, Path: pi.LeftPart(), Err: vfs.err.NotADirectory}
 	}
 
+	if parent == nil {
+		// the volume does not exist.
+		return &fs.PathError{Op: op, Path: path, Err: err}
+	}
+
 	parent.mu.Lock()
 
 	if parent.removed {
